@@ -23,21 +23,23 @@
 #define DATADIR "/repo/tests/data"
 #endif
 
-static const char *DICT_TEXT = "a AH\na(2) EY\ngo G OW\nforward F AO R W ER D\nten T EH N\nmeters M IY T ER Z\n"
+static const char *DICT_TEXT = "a AH\na(2) EY\ndo D UW\ngo G OW\nforward F AO R W ER D\nten T EH N\nmeters M IY T ER Z\n"
                                "stop S T AA P\none W AH N\ntwo T UW\n";
 static char DICT_PATH[512];
 static decoder_t *D;
 static int P_C08 = 1, P_C09 = 1, P_C16 = 1;
 static int TWO; /* a second decoder is alive and used between the operations of the first */
 
-static const char *G1 = "#JSGF V1.0; grammar g; public <s> = [go] [forward] [ten] [meters];"; /* every excerpt of the recording has a complete path */
+static const char *G1 = "#JSGF V1.0; grammar g; public <s> = [go | do] [forward] [ten] [meters];"; /* every excerpt of the recording has a complete
+                                                                                                         path; two confusable first words */
 static const char *G2 = "#JSGF V1.0; grammar h; public <s> = (one | two | stop)+;";
 static const char *G_BAD = "#JSGF V1.0; grammar b; public <s> = ( go ;";
 static const char *G_UNDEF = "#JSGF V1.0; grammar u; public <s> = go <nowhere>;";
 static const char *G_UNKW = "#JSGF V1.0; grammar w; public <s> = go zzzz;";
 static const char *CMN_FIXED = "41.00,-5.29,-0.12,5.09,2.48,-4.07,-1.37,-1.78,-5.08,-2.05,-6.45,-1.42,1.17";
 
-static int16 *AUD_A, *AUD_B, *AUD_SIL, *AUD_QA, *AUD_QB;
+static int16 *AUD_A, *AUD_B, *AUD_SIL, *AUD_QA, *AUD_QB, *AUD_ALL;
+static size_t N_ALL;
 #define DIGN 16384
 static float32 *AUD_AF;
 static size_t N_A, N_B, N_SIL, N_P;
@@ -71,6 +73,9 @@ load_audio(void)
     memcpy(AUD_P, all, n * 2);
     memcpy(AUD_A, all + 2000, N_A * 2);
     memcpy(AUD_B, all + 20000, N_B * 2);
+    AUD_ALL = malloc(n * 2);
+    memcpy(AUD_ALL, all, n * 2);
+    N_ALL = n;
     AUD_QA = malloc(N_A * 2);
     AUD_QB = malloc(N_B * 2);
     memcpy(AUD_QA, all + 24000, N_A * 2);
@@ -137,7 +142,7 @@ enum {
     OP_JSON0, /* core: 0..17 */
     OP_JSON1, OP_JSON2, OP_SET_G1, OP_SET_G2, OP_SET_BAD, OP_SET_UNDEF, OP_SET_UNKW, OP_ALIGN_T1, OP_ALIGN_EMPTY, OP_ALIGN_UNK, OP_ADD_NEW,
     OP_ADD_ALT, OP_ADD_DUP, OP_ADD_ALT_NOBASE, OP_ADD_BADPHONE, OP_ADD_EMPTYWORD, OP_ADD_EMPTYPRON, OP_ADD_NEW_NOUPDATE, OP_ADD_ALT_DUP, OP_LOOKUP,
-    OP_GETCMN0, OP_GETCMN1, OP_SETCMN, OP_REINIT, OP_ADD_MANY, OP_ADD_ONEPHONE, OP_ADD_WS, NOPS
+    OP_GETCMN0, OP_GETCMN1, OP_SETCMN, OP_REINIT, OP_ADD_MANY, OP_ADD_ONEPHONE, OP_ADD_WS, OP_PROC_ALL, NOPS
 };
 static const char *const OPNAME[NOPS] = {
     "start", "procA", "end", "hyp", "segwalk", "alignment", "free",
@@ -145,7 +150,7 @@ static const char *const OPNAME[NOPS] = {
     "json0",
     "json1", "json2", "setG1", "setG2", "setBadSyntax", "setUndefRule", "setUnknownWord", "alignT1", "alignEmpty", "alignUnknown", "addNew",
     "addAlt", "addDup", "addAltNoBase", "addBadPhone", "addEmptyWord", "addEmptyPron", "addNewNoUpdate", "addAltTwice", "lookup",
-    "getcmn0", "getcmn1", "setcmn", "reinit", "addMany", "addOnePhone", "addWithWhitespace",
+    "getcmn0", "getcmn1", "setcmn", "reinit", "addMany", "addOnePhone", "addWithWhitespace", "procAll",
 };
 #define N_PROTO 7
 #define N_CORE 18
@@ -292,6 +297,7 @@ apply_op(model_t *m, int op, const char *cd)
             return -1;
         m->st = ST_ACTIVE;
         break;
+    case OP_PROC_ALL:
     case OP_PROC_A:
     case OP_PROC_B:
     case OP_PROC_SIL:
@@ -299,8 +305,8 @@ apply_op(model_t *m, int op, const char *cd)
     case OP_PROC_A_NOSEARCH:
     case OP_PROC_A_FULL:
     case OP_PROC_A_FLOAT: {
-        int16 *buf = op == OP_PROC_B ? AUD_B : op == OP_PROC_SIL ? AUD_SIL : AUD_A;
-        size_t n = op == OP_PROC_B ? N_B : op == OP_PROC_SIL ? N_SIL : op == OP_PROC_EMPTY ? 0 : N_A;
+        int16 *buf = op == OP_PROC_B ? AUD_B : op == OP_PROC_SIL ? AUD_SIL : op == OP_PROC_ALL ? AUD_ALL : AUD_A;
+        size_t n = op == OP_PROC_B ? N_B : op == OP_PROC_SIL ? N_SIL : op == OP_PROC_EMPTY ? 0 : op == OP_PROC_ALL ? N_ALL : N_A;
         if (op == OP_PROC_A_FLOAT)
             rv = decoder_process_float32(D, AUD_AF, n, 0, 0);
         else
@@ -1036,7 +1042,7 @@ main(int argc, char **argv)
     }
     else if (strcmp(set, "lat") == 0) {
         /* an utterance and everything that is built from its result */
-        static const int ops[] = { OP_START, OP_PROC_A, OP_END, OP_LATTICE, OP_NBEST3, OP_HYP, OP_ALIGN, OP_FREE };
+        static const int ops[] = { OP_START, OP_PROC_A, OP_PROC_ALL, OP_END, OP_LATTICE, OP_NBEST3, OP_HYP, OP_ALIGN, OP_FREE };
         SET_N = (int)(sizeof ops / sizeof *ops);
         for (i = 0; i < SET_N; i++)
             SETMAP[i] = ops[i];
